@@ -27,11 +27,28 @@ class LockRoles:
             if init is None:
                 continue
             r = Resolver(init)
+            local_vals: Dict[str, List[ast.expr]] = {}
             for n in own_nodes(init.node):
-                if isinstance(n, ast.Assign) and any(
-                        isinstance(x, ast.Call) and r.path(x.func) in ('threading.Lock', 'threading.RLock')
-                        for x in ([n.value] if isinstance(n.value, ast.Call) else
-                                  [n.value.body, n.value.orelse] if isinstance(n.value, ast.IfExp) else [])):
+                if isinstance(n, ast.Assign) and len(n.targets) == 1 and isinstance(n.targets[0], ast.Name):
+                    local_vals.setdefault(n.targets[0].id, []).append(n.value)
+
+            def lock_factories(fe: ast.AST, depth: int = 3) -> List[Optional[str]]:
+                """canonical names of what the callee expression may denote"""
+                if isinstance(fe, ast.IfExp):
+                    return lock_factories(fe.body, depth) + lock_factories(fe.orelse, depth)
+                if isinstance(fe, ast.Name) and fe.id in local_vals and depth > 0:
+                    return [x for v in local_vals[fe.id] for x in lock_factories(v, depth - 1)]
+                return [r.path(fe)]
+
+            def builds_lock(v: ast.AST) -> bool:
+                if isinstance(v, ast.IfExp):
+                    return builds_lock(v.body) and builds_lock(v.orelse)
+                if isinstance(v, ast.Call):
+                    fs = lock_factories(v.func)
+                    return bool(fs) and all(f in ('threading.Lock', 'threading.RLock') for f in fs)
+                return False
+            for n in own_nodes(init.node):
+                if isinstance(n, ast.Assign) and builds_lock(n.value):
                     t = n.targets[0]
                     if isinstance(t, ast.Attribute) and isinstance(t.value, ast.Name) and t.value.id == 'self':
                         self.cls = c
@@ -64,11 +81,15 @@ class LockRoles:
                     none_attrs.add(tg.attr)
         for f in [s for s in u.functions() if s.enclosing_class() is cls]:
             if any((dotted(d) or '') == 'property' for d in f.decorators):
-                for n in own_nodes(f.node):
-                    if isinstance(n, ast.Return) and isinstance(n.value, ast.Compare) and len(n.value.ops) == 1 \
-                            and isinstance(n.value.ops[0], ast.IsNot) and isinstance(n.value.left, ast.Attribute) \
-                            and n.value.left.attr in none_attrs:
-                        self.fd = n.value.left.attr
+                gp_ = build(f, p)
+                rets = [n for n in gp_.nodes if n.kind == 'return' and n.ast.value is not None]
+                for n in rets:
+                    v = resolve(gp_, n, n.ast.value)
+                    if len(rets) == 1 and isinstance(v, ast.Compare) and len(v.ops) == 1 \
+                            and isinstance(v.ops[0], ast.IsNot) and isinstance(v.left, ast.Attribute) \
+                            and isinstance(v.comparators[0], ast.Constant) and v.comparators[0].value is None \
+                            and v.left.attr in none_attrs:
+                        self.fd = v.left.attr
                         self.locked_props.add(f.name)
         # CNT: int attribute initialised to 0 and augmented in acquire
         self.cnt = None
@@ -83,13 +104,24 @@ class LockRoles:
             (dotted(d) or '').endswith('abstractmethod') for d in f.decorators)]
         # _acquire: method with os.open ; _release: method with os.close and a store FD = None
         self.os_acquire = self.os_release = None
-        for f in [s for s in u.functions() if s.enclosing_class() is cls]:
-            g = build(f, p)
+        meths = [s for s in u.functions() if s.enclosing_class() is cls and s is not self.init]
+        infos = []
+        for f in meths:
+            g = build(f, p, inline_methods=True)
             names = {callee_info(g, n.ast).get('name') for n in g.nodes if n.kind == 'call'}
-            stores_fd = [n for n in g.nodes if n.kind == 'store_attr' and n.meta['attr'] == self.fd]
-            if 'os.open' in names and f is not self.init:
+            own_stmts = {id(x) for x in own_nodes(f.node)}
+            own_stores = [n for n in g.nodes if n.kind == 'store_attr' and n.meta['attr'] == self.fd
+                          and (not n.meta.get('inlined') or id(n.meta.get('stmt')) in own_stmts)]
+            sets = [n for n in own_stores if not (isinstance(n.meta.get('value'), ast.Constant) and n.meta['value'].value is None)]
+            clears = [n for n in own_stores if isinstance(n.meta.get('value'), ast.Constant) and n.meta['value'].value is None]
+            infos.append((f, names, sets, clears))
+        # the OS acquire helper publishes a descriptor (the os.open may sit in a helper of its own);
+        # the OS release helper clears the attribute and closes
+        for f, names, sets, clears in infos:
+            if sets and 'os.open' in names and self.os_acquire is None:
                 self.os_acquire = f
-            if 'os.close' in names and stores_fd and 'os.open' not in names:
+        for f, names, sets, clears in infos:
+            if clears and 'os.close' in names and f is not self.os_acquire and 'os.open' not in names and self.os_release is None:
                 self.os_release = f
         if self.os_acquire is None or self.os_release is None:
             raise AnalysisError('OS-level acquire/release helpers not found (os.open / os.close)')
@@ -167,7 +199,7 @@ def c02(ctx: Ctx) -> None:
     ctx.rule('C02-R4', 'the descriptor given to the OS lock is opened in the same activation (fresh open file description)', 1)
     ctx.rule('C02-R5', 'every concrete OS lock is exclusive, non-blocking iff block is false, and uses flock / msvcrt.locking', 2)
     ctx.rule('C02-R6', 'release(): OS lock dropped before the thread lock; unlock and close apply to the swapped-out descriptor', 2)
-    ctx.rule('C02-R7', 'the result of acquire() is never dropped at a call site inside the package', 2)
+    ctx.rule('C02-R7', 'the result of acquire() is never dropped at a call site inside the package', 1)
     ctx.rule('C02-R8', 'a function that both acquires and releases reaches release() only through the success edge of its own acquire()', 1)
     # R1/R2 via the affine interpreter
     if not r.has_tl:
@@ -200,7 +232,7 @@ def c02(ctx: Ctx) -> None:
         ctx.undecided('C02-R1', 'acquire()', f'{FILE}:{r.acquire.lineno}', str(e))
     # R3: writers of FD
     expected = {r.init.qualname: 'none', r.os_acquire.qualname: 'fd', r.os_release.qualname: 'none'}
-    ga = build(r.os_acquire, p)
+    ga = build(r.os_acquire, p, inline_methods=True)
     for f in p.all_functions():
         g = build(f, p)
         for n in g.nodes:
@@ -231,9 +263,12 @@ def c02(ctx: Ctx) -> None:
         ok = False
         why = 'argument is not a local name'
         if isinstance(a0, ast.Name):
-            defs = [n for n in ga.nodes if n.kind == 'store_name' and n.meta['name'] == a0.id]
-            ok = bool(defs) and all(isinstance(d.meta.get('value'), ast.Call) and
-                                    ga.res.path(d.meta['value'].func) == 'os.open' for d in defs)
+            # every value the argument can have on a path reaching the call is an os.open(...) of this activation
+            from ..paths import envs_at
+            from ..dataflow import leaves
+            envs = envs_at(ga, o)
+            vals = [lf for env in envs for lf in leaves(ga, o, a0, env=env)]
+            ok = bool(vals) and all(isinstance(v, ast.Call) and ga.res.path(v.func) == 'os.open' for v in vals)
             why = 'descriptor is not the result of os.open in this activation'
         ctx.check('C02-R4', f'{norm(o.ast)}', ga.loc(o), ok, 'fresh os.open per acquisition', why,
                   construct=construct_key(r.os_acquire.qualname, o.ast, 'fd provenance'))
@@ -337,7 +372,7 @@ def c02(ctx: Ctx) -> None:
     for f in p.all_functions():
         if f in (r.acquire, r.release) or f.unit.rel != FILE:
             continue
-        g = build(f, p)
+        g = build(f, p, inline_methods=True)
         acqs = [n for n in g.nodes if n.kind == 'call' and callee_info(g, n.ast)['kind'] == 'package'
                 and r.acquire in callee_info(g, n.ast).get('scopes', [])]
         rels = [n for n in g.nodes if n.kind == 'call' and callee_info(g, n.ast)['kind'] == 'package'
@@ -658,47 +693,73 @@ def c12(ctx: Ctx) -> None:
 
 
 def _rule_lock_kind(ctx: Ctx, r: LockRoles) -> None:
+    """Evaluate the constructor under reentrant = True / False: which lock class ends up in the thread-lock attribute?"""
+    from ..sym import enum_paths, sym_env, subst, simplify
     init = r.init
-    res = Resolver(init)
-    found = False
-    for n in own_nodes(init.node):
-        if isinstance(n, ast.If):
-            def kind(stmts):
-                for s in stmts:
-                    if isinstance(s, ast.Assign) and _self_attr(s.targets[0], r.tl) and isinstance(s.value, ast.Call):
-                        return res.path(s.value.func)
-                return None
-            kb, ko = kind(n.body), kind(n.orelse)
-            if kb is None and ko is None:
-                continue
-            found = True
-            tnames = {x.id for x in ast.walk(n.test) if isinstance(x, ast.Name)} | \
-                     {x.attr for x in ast.walk(n.test) if isinstance(x, ast.Attribute)}
-            mentions = any('reentrant' in t for t in tnames)
-            neg = isinstance(n.test, ast.UnaryOp) and isinstance(n.test.op, ast.Not)
-            want = ('threading.RLock', 'threading.Lock') if not neg else ('threading.Lock', 'threading.RLock')
-            ctx.check('C12-R3', f'if {norm(n.test)}: {kb} else: {ko}', f'{FILE}:{n.lineno}',
-                      mentions and (kb, ko) == want, 'RLock iff reentrant',
-                      'lock kind does not follow the reentrant option (a non-reentrant lock would not refuse a second acquire, '
-                      'or a reentrant one would deadlock)', construct=construct_key(init.qualname, 'lock kind', kb, ko))
-        if isinstance(n, ast.Assign) and _self_attr(n.targets[0], r.tl) and isinstance(n.value, ast.IfExp):
-            found = True
-            v = n.value
-            kb = res.path(v.body.func) if isinstance(v.body, ast.Call) else None
-            ko = res.path(v.orelse.func) if isinstance(v.orelse, ast.Call) else None
-            mentions = 'reentrant' in norm(v.test)
-            neg = isinstance(v.test, ast.UnaryOp) and isinstance(v.test.op, ast.Not)
-            want = ('threading.RLock', 'threading.Lock') if not neg else ('threading.Lock', 'threading.RLock')
-            ctx.check('C12-R3', f'{norm(n)}', f'{FILE}:{n.lineno}', mentions and (kb, ko) == want, 'RLock iff reentrant',
-                      'lock kind does not follow the reentrant option', construct=construct_key(init.qualname, 'lock kind', kb, ko))
-    if not found:
+    p = ctx.program
+    g = build(init, p)
+    res = g.res
+    stores = [n for n in g.nodes if n.kind == 'store_attr' and n.meta['attr'] == r.tl]
+    rp = next((x for x in init.params if 'reentrant' in x), None)
+    if rp is None or not stores:
         ctx.violation('C12-R3', 'thread lock kind does not depend on `reentrant`', f'{FILE}:{init.lineno}',
                       'one lock kind for both modes', construct=construct_key(init.qualname, 'lock kind fixed'))
+        return
+    # attributes that hold the option
+    opt_attrs = {n.meta['attr'] for n in g.nodes if n.kind == 'store_attr' and isinstance(n.meta.get('value'), ast.Name)
+                 and n.meta['value'].id == rp}
+
+    def fold(e: ast.AST, b: bool) -> Optional[bool]:
+        if isinstance(e, ast.Name) and e.id == rp:
+            return b
+        if isinstance(e, ast.Attribute) and isinstance(e.value, ast.Name) and e.value.id == 'self' and e.attr in opt_attrs:
+            return b
+        if isinstance(e, ast.UnaryOp) and isinstance(e.op, ast.Not):
+            v = fold(e.operand, b)
+            return None if v is None else not v
+        if isinstance(e, ast.Constant):
+            return bool(e.value)
+        return None
+
+    def pick(e: ast.AST, b: bool) -> ast.AST:
+        while isinstance(e, ast.IfExp):
+            t = fold(e.test, b)
+            if t is None:
+                break
+            e = e.body if t else e.orelse
+        return e
+    kinds: Dict[bool, Set[Optional[str]]] = {True: set(), False: set()}
+    for st in stores:
+        for pth in enum_paths(g, [st], sources=[g.entry]):
+            for b in (True, False):
+                feasible = True
+                for e in pth:
+                    if e.src.kind == 'branch' and e.label in ('true', 'false'):
+                        t = fold(e.src.meta['test'], b)
+                        if t is not None and t != (e.label == 'true'):
+                            feasible = False
+                            break
+                if not feasible:
+                    continue
+                env = sym_env(g, pth)
+                v = st.meta.get('value')
+                sv = pick(subst(v, env), b) if v is not None else None
+                if isinstance(sv, ast.Call):
+                    f = pick(simplify(sv.func), b)
+                    kinds[b].add(res.path(f))
+                else:
+                    kinds[b].add(None)
+    ok = kinds[True] == {'threading.RLock'} and kinds[False] == {'threading.Lock'}
+    ctx.check('C12-R3', f'{rp}=True -> {sorted(map(str, kinds[True]))}, {rp}=False -> {sorted(map(str, kinds[False]))}',
+              f'{FILE}:{stores[0].line}', ok, 'RLock iff reentrant',
+              'lock kind does not follow the reentrant option (a non-reentrant lock would not refuse a second acquire, '
+              'or a reentrant one would deadlock)',
+              construct=construct_key(init.qualname, 'lock kind', sorted(map(str, kinds[True])), sorted(map(str, kinds[False]))))
 
 
 def _rule_fd_accounting(ctx: Ctx, r: LockRoles) -> None:
     p = ctx.program
-    g = build(r.os_acquire, p)
+    g = build(r.os_acquire, p, inline_methods=True)
     opens = [n for n in g.nodes if n.kind == 'call' and g.res.path(n.ast.func) == 'os.open']
     closes = [n for n in g.nodes if n.kind == 'call' and g.res.path(n.ast.func) == 'os.close']
     stores = [n for n in g.nodes if n.kind == 'store_attr' and n.meta['attr'] == r.fd]
@@ -855,7 +916,9 @@ def _exec_abs(stmts: List[ast.stmt], env: Dict[str, tuple], default_attr: str, s
 def _rule_arguments(ctx: Ctx, r: LockRoles) -> None:
     p = ctx.program
     acq = r.acquire
-    g = build(acq, p)
+    # private helpers of acquire() (an extracted polling loop, an extracted clean-up) are part of it; the OS-level
+    # helpers stay opaque call sites
+    g = build(acq, p, inline_methods=True, no_inline=(r.os_acquire.qualname, r.os_release.qualname))
     params = acq.params
     if len(params) < 3:
         ctx.undecided('C12-R6', 'acquire signature', f'{FILE}:{acq.lineno}', 'unexpected parameters')
@@ -1097,7 +1160,7 @@ def c13(ctx: Ctx) -> None:
     # R2: open mode
     mode_bits = None
     where = f'{FILE}:{r.os_acquire.lineno}'
-    ga = build(r.os_acquire, p)
+    ga = build(r.os_acquire, p, inline_methods=True)
     for n in ga.nodes:
         if n.kind == 'call' and ga.res.path(n.ast.func) == 'os.open' and len(n.ast.args) >= 2:
             m = n.ast.args[1]
